@@ -43,8 +43,13 @@ fn refused(name: &[u8]) -> bool {
 }
 
 fn remove_all_body(plan: [u8; 3]) {
+    remove_all_body_e(plan, 0)
+}
+
+fn remove_all_body_e(plan: [u8; 3], fixed_errno: i32) {
     install_close_model();
     reset(3);
+    kmut().fixed_errno = fixed_errno;
     let d = given_fd(true);
     {
         let k = kmut();
@@ -178,3 +183,15 @@ ra_h!(dir_remove_all_unlink_ok, [P_OK, P_ANY, P_ANY]);
 ra_h!(dir_remove_all_rmdir_ok, [P_FAIL, P_OK, P_ANY]);
 ra_h!(dir_remove_all_open_fail, [P_FAIL, P_FAIL, P_FAIL]);
 ra_h!(dir_remove_all_scan, [P_FAIL, P_FAIL, P_OK]);
+
+// every failing call answers ENOTEMPTY (the non-empty-directory case): keeps the
+// error values concrete so the scan path fits the quick tier
+#[kani::proof]
+#[kani::unwind(8)]
+#[kani::stub(crate::syscalls::unlinkat, k_unlinkat)]
+#[kani::stub(crate::syscalls::openat_follow, k_openat_follow)]
+#[kani::stub(rx::fs::Dir::read_from, k_dir_read_from)]
+#[kani::stub(alloc::fmt::format, k_format)]
+fn dir_remove_all_scan_enotempty() {
+    remove_all_body_e([P_FAIL, P_FAIL, P_OK], libc::ENOTEMPTY);
+}
